@@ -70,6 +70,7 @@ func (h *Handler6) spoofLoop(dstAddr packet.Addr) {
 	}
 	for {
 		h.Lock()
+		wake := h.closeChan // replaced by ProcessPacket on every RA, under this lock
 
 		if h.huntList.Index(dstAddr.MAC) == -1 || h.closed {
 			h.Unlock()
@@ -128,7 +129,7 @@ func (h *Handler6) spoofLoop(dstAddr packet.Addr) {
 		}
 
 		select {
-		case <-h.closeChan:
+		case <-wake:
 			// icmp6 spoof goroutines wait on this channel to receive
 			// notifications of new Router Advertisements send by the lan router.
 			//
